@@ -153,12 +153,14 @@ class Runner:
                 raise Fail("auto_create_returns_new_record", None, "a new Repeater")
             if any(got is r["obj"] for r in self.recs):
                 raise Fail("auto_create_of_unseen_address_creates_new_record", f"existing record {got.id}", "a new record")
+            # The statement fixes the key (address_in) of a fresh record and what the patch names; the initial values of
+            # all other built-in fields / dynamic attributes are the library's choice: they are adopted as observed here
+            # and must then only ever change through patches naming them.
             rec = {
                 "obj": got,
                 "id": got.id,
-                "fields": {"address_in": addr, "address_out": ("", 0), "address_nat": ("", 0), "dmr_id": None, "callsign": "", "serial": "",
-                           "snmp_enabled": True, "nat_enabled": False},
-                "attrs": {},
+                "fields": {f: (addr if f == "address_in" else getattr(got, f)) for f in FIELDS},
+                "attrs": {k: v for k in DYN_KEYS if k not in patch for v in [got.attr(k)] if v is not None},
             }
             self.recs.append(rec)
             self._model_patch(rec, patch)
@@ -205,7 +207,9 @@ class Runner:
                 got = self.real.match_uuid(u)
             except SystemError:
                 return
-            raise Fail("match_uuid_unknown_raises_or_none", repr(got), "SystemError (documented)")
+            if got is not None:
+                raise Fail("match_uuid_unknown_raises_or_none", repr(got), "SystemError (documented) or None")
+            return
         rec = self._rec_of(op["rec"])
         self._check_result(self.real.match_uuid(rec["id"]), rec, "match_uuid")
 
